@@ -13,7 +13,11 @@ CHECKS = {
          "TLC checks FullRoundTrip (serializer machine -> full-copy reader machine returns the value, consuming every byte) "
          "on every (type, value, entry point, preceding length) of the bounded universe; every terminal state is replayed "
          "into the real library (serialize -> deserialize_full, public API and inner API at each stream offset) and the "
-         "abstract value compared bit for bit. Alarm = real round trip fails, panics, aborts or changes the value.",
+         "abstract value compared bit for bit. Alarm = real round trip fails, panics, aborts or changes the value. "
+         "Implementation -> specification: recorded runs on random types and values far outside TLC's bounds; the value the "
+         "real readers returned (Trace_Ser) and the real full-copy reader call by call - every read_exact and align request on "
+         "a recording ReadWithPos, the returned value and final position - validated by TLC against the reader machine "
+         "(Trace_Read).",
          "6 C01"),
  "C02": ("model checking + conformance replay",
          "TLC checks EpsRoundTrip (ε-copy machine on an aligned buffer returns the same abstract value as was serialized and "
@@ -36,7 +40,9 @@ CHECKS = {
          "TLC checks PosCounts, BlockAligned, UnitsSane on every state of the serializer machine over all preceding lengths; "
          "the replay observes the real run through a recording WriteWithNames that delegates to the real WriterWithPos: every "
          "align request (unit = real max_size_of, position before/after), every block (offset, unit, native alignment), the "
-         "returned count, the bytes handed to the sink, and the bytes consumed by both deserializers.",
+         "returned count, the bytes handed to the sink, and the bytes consumed by both deserializers. Recorded runs on random "
+         "types are validated by TLC against Trace_Ser (alignment requests, bytes, counts) and Trace_Read (the reader's align "
+         "requests with unit / position / skip, and full consumption).",
          "6 C07"),
  "C18": ("model checking + conformance replay",
          "The serializer machine builds schema rows as SchemaWriter does; TLC checks RowsWithin/RowsPreorder/RowsAligned/"
@@ -69,7 +75,9 @@ CHECKS = {
          "MC_Reader with every cut k in [0, len): TLC checks TruncNeverValue (full copy: ReadError; ε-copy: error or bounds panic, "
          "never ok) and InBounds; every (type, value, k) is replayed on the real prefix: deserialize_full, and deserialize_eps "
          "at base 0 and on an exactly-sized copy that ends at a PROT_NONE guard page (a read past the prefix kills the process "
-         "and is reported).",
+         "and is reported). On real files: every strict prefix of stored files through load_full (read error) and mmap (must "
+         "fail), with the system calls of each load (strace) validated by TLC against Trace_Loader.tla: the mapping is exactly "
+         "the prefix.",
          "6 C11"),
  "C12": ("model checking + conformance replay (all placements)",
          "MC_Reader with every base residue 0..127: TLC checks PlaceRule (ok iff every block row of the serializer machine lands "
@@ -110,17 +118,22 @@ CHECKS = {
          "sets x every file-length residue modulo 64 x owner histories (move, box, send, Arc with two readers); each terminal "
          "state is replayed on a real file: store() bytes = serialize() bytes, loaded structure = original value, region "
          "(through the cfg hook) capacity / alignment / zero tail / containment of every borrowed part, digest stable across "
-         "moves and threads; replayed for the default feature set and for the build without mmap.",
+         "moves and threads; replayed for the default feature set and for the build without mmap. Implementation -> "
+         "specification: the same cases run under strace; open flags of store(), bytes written, statx, mmap length / protection "
+         "/ backing, allocator calls (size, alignment), read lengths, mprotect, and the Flags -> madvise table are validated "
+         "by TLC against Trace_Loader.tla. Fresh allocations are poisoned so that the zero tail is the library's doing.",
          "6 C08"),
  "C09": ("model checking + conformance replay (failure causes x loaders); lifetime part by generated compile probes",
          "TLC checks ReleasedAtMostOnce, NoLeakOnFailure, ReleasedWhenDropped, StructureBeforeBackend on MemCase.tla over every "
          "loader x failure cause (wrong type, wrong align hash, corrupt, truncated, empty, missing, over-aligned type); each is "
          "replayed on a real file with the tracking allocator (live heap bytes) and /proc/self/maps (mappings) compared before "
          "the load, after a failed load and after the drop of a successful one; a canary structure whose Drop reads its "
-         "borrowed slice observes the drop order.",
+         "borrowed slice observes the drop order. Implementation -> specification: every case also runs under strace; munmap / "
+         "dealloc of the region (exactly one, same range / layout, after the structure's Drop marker, before the loader returns "
+         "on its error path) validated by TLC against Trace_Loader.tla.",
          "6 C09"),
  "C05": ("model checking + generated programs (derive grammar) + conformance replay",
-         "spec/Derive.tla enumerates the supported grammar of definitions (353 definitions, 1035 instantiations within the "
+         "spec/Derive.tla enumerates the supported grammar of definitions (377 definitions, 1131 instantiations within the "
          "bounds) with the predictions of the recipe operators; the generator writes them as Rust with #[derive(Epserde)]: "
          "per-definition compilation outcome from cargo's JSON messages, real ε-copy type name / IS_ZERO_COPY / layout / hash "
          "preimages against the predictions, and MC_RoundTrip over the grammar types (serializer, full-copy and ε-copy machines, "
@@ -137,6 +150,9 @@ CHECKS = {
 }
 
 
+TRACED = {"C01", "C02", "C03", "C06", "C07", "C18", "C19", "C08", "C09", "C11"}
+
+
 def main():
     props = [json.loads(l) for l in open("/verif/properties.jsonl")]
     checks = []
@@ -150,7 +166,8 @@ def main():
             "engine": "tlc+harness",
             "level_claimed": {"category": "model_checking", "text": text, "design_ref": "DESIGN.md section " + ref},
             "level_note": TRUST,
-            "technique": "TLA+ specification checked with TLC; TLC behaviours replayed into the real library (" + tech + ")",
+            "technique": "TLA+ specification checked with TLC; TLC behaviours replayed into the real library (" + tech + ")"
+                         + ("; recorded executions validated by TLC against Trace_*.tla" if pid in TRACED else ""),
         })
     na = [{"property_id": p["id"], "reason": "check not built yet (work in progress; see DESIGN.md section 6)"}
           for p in props if p["id"] not in CHECKS]
